@@ -144,16 +144,41 @@ fn gen_layers(r: &mut Rng, d0: usize, tier: &str) -> Vec<Layer> {
         layers.push(Layer::Linear(gen_linear(r, w, cur)));
         cur = w;
         layers.push(Layer::Argmax);
+        behind_head(r, &mut layers);
         return layers;
     }
     if cur >= 2 {
         match r.below(4) {
-            0 => layers.push(Layer::Argmax),
-            1 => layers.push(Layer::ClassChar(r.below(cur))),
+            0 => {
+                layers.push(Layer::Argmax);
+                behind_head(r, &mut layers);
+            }
+            1 => {
+                layers.push(Layer::ClassChar(r.below(cur)));
+                behind_head(r, &mut layers);
+            }
             _ => {}
         }
     }
     layers
+}
+/// one time in four the head is not the last layer: its 1-dimensional output (class index / indicator) is fed through
+/// a further linear layer and activations (the builder continues with dim = 1 behind a head)
+fn behind_head(r: &mut Rng, layers: &mut Vec<Layer>) {
+    if !r.chance(1, 4) {
+        return;
+    }
+    let w = 1 + r.below(2);
+    layers.push(Layer::Linear(gen_linear(r, w, 1)));
+    for i in 0..w {
+        if r.chance(3, 4) {
+            layers.push(match r.below(4) {
+                0 => Layer::LeakyReLU(i, gen_alpha(r)),
+                1 => Layer::HardTanh(i),
+                _ => Layer::ReLU(i),
+            });
+        }
+    }
 }
 
 fn gen_poly(r: &mut Rng, n: usize, kind: usize) -> Polytope {
